@@ -94,10 +94,12 @@ fn step2(w: &mut World, op: &R1Op, mut a: Args, before: Cost, dup: bool) -> Reso
             }
             // a constant that is not a valid encoding has no element: reading one out of it is wrong however
             // often it is tried (native decoding fails, and there is nothing to constrain)
-            if w.judge == Judge::C13 && const_invalid(&w.es[&id]) {
+            if const_invalid(&w.es[&id]) {
                 if let Some(Ok(v)) = &r {
+                    // completeness (C13: the native decoding fails) and soundness (C14: an invalid encoding
+                    // is never decoded in-circuit) both forbid this; reported under the property being judged
                     w.viol(
-                        "C13",
+                        if w.judge == Judge::C14 { "C14" } else { "C13" },
                         "constant_invalid_encoding_decoded",
                         format!("op={} state={}", name, memo_name(was)),
                         format!(
@@ -217,9 +219,9 @@ fn step2(w: &mut World, op: &R1Op, mut a: Args, before: Cost, dup: bool) -> Reso
                         w.sat = false;
                         w.probe("invalid_encoding_forced");
                     }
-                    if fv.cst && poisoned && w.judge == Judge::C13 {
+                    if fv.cst && poisoned {
                         w.viol(
-                            "C13",
+                            if w.judge == Judge::C14 { "C14" } else { "C13" },
                             "constant_invalid_encoding_decoded",
                             format!("op={}", name),
                             "decompress_from_field accepted a constant invalid encoding".into(),
@@ -701,9 +703,15 @@ fn step_eq(w: &mut World, op: &R1Op, ia: usize, ib: usize, cond: Option<usize>, 
             let active = cv.as_ref().map(|c| c.val).unwrap_or(Some(true));
             if let (Some(eq), Some(true)) = (native_eq, active) {
                 if eq != want_eq {
-                    if !all_cst {
+                    // a contradiction between constants cannot be expressed as a constraint: the pinned code
+                    // returns an error. Either outcome is acceptable (an error, or a system that is no longer
+                    // satisfiable); returning Ok and leaving the system satisfiable is not.
+                    if !all_cst || res.is_ok() {
                         w.sat = false;
                         w.probe("contradictory_enforcement_made_system_unsatisfied");
+                    }
+                    if all_cst {
+                        w.probe("contradictory_enforcement_between_constants");
                     }
                 } else if res.is_err() && !undefined && w.judge == Judge::C13 {
                     w.viol(
